@@ -15,6 +15,7 @@ R2.7  the cycle tracker's enter/exit calls are balanced on every path of _parse_
       unrelated schemas into zero-field depth placeholders)                                   [typestate shared with C08]
 R2.11 the resolver's by-name registry fallback is taken only when the schema's own type agrees with the registered schema's
 R2.12 a schema that declares properties is never rendered as a TypeAlias (the alias decision is false for every such input)
+R2.14 the sanitised key a schema is registered under is tested against the declared names (it never shadows another declared schema)
 R2.13 the oneOf / anyOf parsers drop a member only when it has no type, properties, items, enum or composition (cycle placeholders stay)
 """
 from __future__ import annotations
@@ -110,6 +111,7 @@ def run(repo: Repo, rep: Report, tier: str) -> None:
     rule_name_fallback_respects_kind(repo, rep, "R2.11")
     rule_properties_never_alias(repo, rep, "R2.12")
     rule_union_members_kept(repo, rep, "R2.13")
+    rule_key_does_not_shadow_declared_name(repo, rep, "R2.14")
     # ---------------------------------------------------------------- R2.2 name content
     ucd = repo.module("core.parsing.unified_cycle_detection")
     ucc = ucd.func("unified_cycle_check")
@@ -754,3 +756,61 @@ def rule_union_members_kept(repo: Repo, rep, rule: str = "R2.13") -> None:
                                   f"a union member with {shown} is dropped from the union: a `$ref` member that closes a reference cycle is represented by exactly such a "
                                   "placeholder, so the variant disappears from the field's type depending on declaration order", fn.loc(comp))
     rep.require(n >= 2, f"{rule}: only {n} union member filters found in the oneOf / anyOf parsers (floor 2)")
+
+
+# ------------------------------------------------------------------------------------------------ R2.14 a registration key never shadows another declared schema
+def rule_key_does_not_shadow_declared_name(repo: Repo, rep, rule: str = "R2.14") -> None:
+    """_parse_schema registers a finished schema under its *sanitised* name.  That key can be the raw name of another declared schema
+    (`user_profile` -> `UserProfile` while `UserProfile` is declared as well): registered there it makes build_schemas skip the other
+    schema ("already parsed") and the two declarations collapse into one model - in one declaration order only.  Whenever the key can
+    differ from the raw name, a test of the key against the declared names (`raw_spec_schemas`) dominates the registration and falls back
+    to the raw name."""
+    from sa.report import with_flatten_fallback
+
+    ps = repo.func(f"{SP}:_parse_schema")
+    with_flatten_fallback(rep, ps, lambda f, r: _rule_2_14(f, r, rule))
+
+
+def _rule_2_14(ps, rep, rule: str) -> None:
+    cfg = CFG(ps.node)
+    dom = cfg.dominators()
+    PL = Locals(ps.node)
+    regs = [n for n in cfg.nodes if n.kind == "stmt" and isinstance(n.ast, ast.Assign) and isinstance(n.ast.targets[0], ast.Subscript) and not n.copy
+            and isinstance(n.ast.targets[0].value, ast.Attribute) and n.ast.targets[0].value.attr == "parsed_schemas"]
+    rep.require(bool(regs), f"{rule}: no `context.parsed_schemas[<key>] = <ir>` in _parse_schema (anchor)")
+    name_param = ps.params[0] if ps.params else "schema_name"
+    for r in regs:
+        key = r.ast.targets[0].slice
+        sub = f"{ps.module.relpath}:_parse_schema registration under `{norm(key)[:30]}`"
+        if isinstance(key, ast.Name) and PL.root(key.id) == name_param:
+            rep.ok(rule, sub, "registered under the raw declared name", ps.loc(r.ast))
+            continue
+        if not isinstance(key, ast.Name):
+            rep.error(f"{rule}: registration key `{norm(key)[:40]}` of _parse_schema is not a local name")
+            continue
+        derived = [v for k, v, _ in PL.defs.get(key.id, []) if v is not None and not (isinstance(v, ast.Name) and PL.root(v.id) == name_param)]
+        if not derived:
+            rep.ok(rule, sub, "every definition of the key is the raw declared name", ps.loc(r.ast))
+            continue
+        guarded = False
+        for t in cfg.nodes:
+            if t.kind != "test" or t.id not in dom[r.id]:
+                continue
+            txt = norm(t.ast)
+            if "raw_spec_schemas" not in txt or key.id not in {x.id for x in ast.walk(t.ast) if isinstance(x, ast.Name)}:
+                continue
+            # its true branch re-binds the key to the raw name
+            true_succ = [m for m, lab in cfg.succ[t.id] if lab == "true"]
+            for m in true_succ:
+                for q in [m] + list(cfg.reachable(m)):
+                    nd = cfg.nodes[q]
+                    if nd.kind == "stmt" and isinstance(nd.ast, ast.Assign) and isinstance(nd.ast.targets[0], ast.Name) and nd.ast.targets[0].id == key.id \
+                            and isinstance(nd.ast.value, ast.Name) and PL.root(nd.ast.value.id) == name_param and q != r.id and t.id in dom[q]:
+                        guarded = True
+        if guarded:
+            rep.ok(rule, sub, f"`{key.id}` can be the sanitised name, but a test against the declared names (raw_spec_schemas) dominates the registration and falls back to the raw name", ps.loc(r.ast))
+        else:
+            rep.violation(rule, sub, f"{ps.fq}|key-shadows-declared-name",
+                          f"the schema is registered under `{norm(derived[0])[:50]}` without checking that this key is not the name of another declared schema: with "
+                          "`user_profile` declared before `UserProfile`, the first takes the key `UserProfile`, build_schemas then skips the second as already parsed, and both "
+                          "names end up with the first schema's fields (the second declaration is lost; the other declaration order works)", ps.loc(r.ast))
